@@ -53,6 +53,8 @@ def counts_for(pid):
         "C10": None,
         # C13: the clone must answer every query like the original and evolve independently: every oracle counts on S-D
         "C13": None,
+        # C19: every other property must hold unchanged in every configuration
+        "C19": None,
     }
     return m.get(pid, {pid, "CRASH"})
 
